@@ -208,8 +208,32 @@ def gen_dataset(rng, din, dout, m, warmup, tmax=6, tmin=1):
     return Xs, Ys
 
 
-def gen_cases(rng, n_ridge, n_esn, n_legacy, n_run, thorough=False):
+def gen_twins(rng, n):
+    """two live deep copies of one Ridge template (same name), partial fits interleaved, then both fitted"""
     cases = []
+    for i in range(n):
+        din, dout = rng.randint(1, 3), rng.randint(1, 2)
+        warmup = rng.choice([0, 0, 1])
+        XA, YA = gen_dataset(rng, din, dout, rng.randint(2, 4), warmup)
+        XB, YB = gen_dataset(rng, din, dout, rng.randint(2, 4), warmup)
+        ga, gb = rand_partition(rng, range(len(XA))), rand_partition(rng, range(len(XB)))
+        if len(ga) == 1 and len(XA) > 1:
+            ga = [ga[0][:1], ga[0][1:]]
+        # random merge of the two call sequences; copy a always starts so that b's first call comes while a is live
+        calls, ia, ib = [["a", ga[0]]], 1, 0
+        while ia < len(ga) or ib < len(gb):
+            if ib < len(gb) and (ia >= len(ga) or rng.random() < 0.6):
+                calls.append(["b", gb[ib]]); ib += 1
+            else:
+                calls.append(["a", ga[ia]]); ia += 1
+        cases.append({"kind": "twins", "din": din, "dout": dout, "warmup": warmup, "bias": rng.random() < 0.7,
+                      "ridge": str(Fraction(rng.choice([1, 2, 4]), 4)), "XA": XA, "YA": YA, "XB": XB, "YB": YB,
+                      "calls": calls, "in_model": i % 3 == 2, "fit_order": rng.choice(["ab", "ba"])})
+    return cases
+
+
+def gen_cases(rng, n_ridge, n_esn, n_legacy, n_run, thorough=False):
+    cases = gen_twins(rng, max(2, n_ridge // 4))
     for i in range(n_ridge):
         din, dout = rng.randint(1, 3), rng.randint(1, 2)
         m, warmup = rng.randint(2, 5), rng.choice([0, 0, 1, 2])
@@ -223,7 +247,10 @@ def gen_cases(rng, n_ridge, n_esn, n_legacy, n_run, thorough=False):
         din, dout, N = rng.randint(1, 2), rng.randint(1, 2), rng.randint(2, 3)
         m, warmup = rng.randint(3, 6), rng.choice([0, 0, 1])
         Xs, Ys = gen_dataset(rng, din, dout, m, warmup, tmax=5)
-        cfg = list(backs)
+        # documented joblib values n_jobs <= -2 (all CPUs but |n|-1) with an explicit parallel backend: several workers
+        cfg = list(backs) + [((-2, "threading"), (-3, "threading"))[i % 2]]
+        if thorough:
+            cfg += [(-3 if i % 2 == 0 else -2, "threading"), (-4, "threading")] + ([(-2, "loky")] if i % 5 == 0 else [])
         if thorough:
             cfg += [(2, "loky"), (4, "multiprocessing"), (8, "threading"), (-1, "threading")][: 2 + i % 3]
         cases.append({"kind": "esn", "din": din, "dout": dout, "N": N, "warmup": warmup, "bias": rng.random() < 0.7,
@@ -451,8 +478,38 @@ def run_runorder(c):
     return {"singles": singles, "par": par}
 
 
+def run_twins(c):
+    rpy()
+    from copy import deepcopy
+    from reservoirpy.nodes import Input, Ridge
+    w, ridge = c["warmup"], float(Fraction(c["ridge"]))
+    data = {"a": ([farr(x, c["din"]) for x in c["XA"]], [farr(y, c["dout"]) for y in c["YA"]]),
+            "b": ([farr(x, c["din"]) for x in c["XB"]], [farr(y, c["dout"]) for y in c["YB"]])}
+    template = Ridge(ridge=ridge, input_bias=c["bias"], name=uname("tmpl"))
+    node = {"a": deepcopy(template), "b": deepcopy(template)}
+    models = None
+    if c["in_model"]:       # the two copies live in two different models
+        models = [Input(name=uname("ina")) >> node["a"], Input(name=uname("inb")) >> node["b"]]
+    for who, batch in c["calls"]:
+        X, Y = data[who]
+        node[who].partial_fit([X[i] for i in batch], [Y[i] for i in batch], warmup=w)
+    out = {"names": [node["a"].name, node["b"].name], "copies": {}}
+    for who in "ab":
+        out["copies"][who] = {"grouping": [b for wh, b in c["calls"] if wh == who],
+                              "XXT": np.array(node[who].get_buffer("XXT")).tolist(),
+                              "YXT": np.array(node[who].get_buffer("YXT")).tolist()}
+    for who in c["fit_order"]:
+        node[who].fit()
+        out["copies"][who].update(wb(node[who]))
+    for who in "ab":
+        ref = Ridge(ridge=ridge, input_bias=c["bias"], name=uname("ref"))
+        ref.fit(data[who][0], data[who][1], warmup=w)
+        out["copies"][who]["ref"] = wb(ref)
+    return out
+
+
 def run_impl(c):
-    return {"ridge": run_ridge, "esn": run_esn, "legacy": run_legacy, "run": run_runorder}[c["kind"]](c)
+    return {"ridge": run_ridge, "esn": run_esn, "legacy": run_legacy, "run": run_runorder, "twins": run_twins}[c["kind"]](c)
 
 
 # ------------------------------------------------------------------------------------------ Gallina terms
@@ -479,6 +536,15 @@ def to_coq(c, o):
             batches = coqlist([qseqs([c["X"][i] for i in batch], [c["Y"][i] for i in batch]) for batch in b["grouping"]])
             out.append(("buffers %s" % b["grouping"], "chk_buffers %s %s %s %s %s %s %s" % (
                 coqbool(c["bias"]), nat(c["din"]), nat(c["dout"]), nat(c["warmup"]), batches, qmat(b["XXT"]), qmat(b["YXT"]))))
+        return out
+    if c["kind"] == "twins":
+        for who, (X, Y) in (("a", (c["XA"], c["YA"])), ("b", (c["XB"], c["YB"]))):
+            r = o["copies"][who]
+            batches = coqlist([qseqs([X[i] for i in batch], [Y[i] for i in batch]) for batch in r["grouping"]])
+            args = "%s %s %s %s" % (coqbool(c["bias"]), nat(c["din"]), nat(c["dout"]), nat(c["warmup"]))
+            out.append(("copy %s buffers" % who, "chk_buffers %s %s %s %s" % (args, batches, qmat(r["XXT"]), qmat(r["YXT"]))))
+            out.append(("copy %s solution" % who, "chk_solutions %s %s %s %s" % (
+                args, coqlist([qseqs(X, Y)]), q(c["ridge"]), sols_term([r, r["ref"]]))))
         return out
     if c["kind"] in ("esn", "legacy"):
         bias = c["bias"] if c["kind"] == "esn" else True
@@ -507,6 +573,8 @@ def to_coq(c, o):
 
 
 def nontrivial(c, o):
+    if c["kind"] == "twins":
+        return o["names"][0] == o["names"][1] and sum(1 for wh, _ in c["calls"] if wh == "a") >= 2
     if c["kind"] == "ridge":
         perm = any(x != sorted(x) for x in c["orders"]) or any(len(g) > 1 for g in c["groupings"])
         return len(c["X"]) >= 2 and perm and any(abs(v) > 0 for r in o["sols"][0]["W"] for v in r)
@@ -517,7 +585,7 @@ def nontrivial(c, o):
 
 def correspondence(ctx):
     rng = ctx.rng("corr")
-    cases = gen_cases(rng, ctx.n(40, 250), ctx.n(5, 30), ctx.n(3, 12), ctx.n(4, 24), ctx.thorough)
+    cases = gen_cases(rng, ctx.n(32, 250), ctx.n(5, 30), ctx.n(3, 12), ctx.n(4, 24), ctx.thorough)
     terms, owner, keep, dist, nt = [], [], [], {}, set()
     for ci, c in enumerate(cases):
         try:
@@ -554,7 +622,7 @@ def correspondence(ctx):
                     "non-trivial = >= 2 sequences with a non-identity order or a real regrouping and a non-zero solution (ridge), "
                     ">= 2 distinct worker threads seen inside the accumulation section (esn, legacy), a non-sorted arrival order of "
                     ">= 3 sequences (run); distinct by scenario text",
-            "samples": [keep[0], keep[min(len(keep) - 1, ctx.n(40, 250))], keep[-1]],
+            "samples": [keep[0], keep[min(len(keep) - 1, ctx.n(32, 250))], keep[-1]],
             "distribution": dist, "tolerance": "1e-9 relative (qclose)",
             "failing": [dict(keep[ci], index=ci, checks=labs) for ci, labs in sorted(bad.items())], "error": err}
 
@@ -636,6 +704,17 @@ def _judge_all(c, dwell_ms=1.0):
             if [[float(v) for v in r] for r in XX] != b["XXT"] or [[float(v) for v in r] for r in YX] != b["YXT"]:
                 add(_viol("batching:buffers", "XXT/YXT after partial fits %s are not the sums over the retained rows (lost or duplicated contribution)" % b["grouping"],
                           c, {"XXT": [[str(v) for v in r] for r in XX], "YXT": [[str(v) for v in r] for r in YX]}, b))
+    elif c["kind"] == "twins":
+        for who, (X, Y) in (("a", (c["XA"], c["YA"])), ("b", (c["XB"], c["YB"]))):
+            r = o["copies"][who]
+            XX, YX = _exact_buffers(dict(c, X=X, Y=Y), r["grouping"])
+            if [[float(v) for v in rr] for rr in XX] != r["XXT"] or [[float(v) for v in rr] for rr in YX] != r["YXT"]:
+                add(_viol("isolation:same-name-buffers", "copy %s of a Ridge template (live next to another copy with the same name %r, partial fits "
+                          "interleaved): XXT/YXT before fit() are not the sums over the sequences it was given" % (who, o["names"]),
+                          c, {"XXT": [[str(v) for v in rr] for rr in XX], "YXT": [[str(v) for v in rr] for rr in YX]}, {"XXT": r["XXT"], "YXT": r["YXT"]}))
+            if not (_close(r["ref"]["W"], r["W"]) and _close(r["ref"]["b"], r["b"])):
+                add(_viol("isolation:same-name-solution", "copy %s: solution after interleaved partial fits differs from the one-shot fit on its own sequences" % who,
+                          c, r["ref"], {"W": r["W"], "b": r["b"]}))
     elif c["kind"] in ("esn", "legacy"):
         ref = o["sols"][0]
         for r in o["scheds"]:
@@ -666,7 +745,7 @@ def judge(case):
 
 def oracle(ctx, scale=1):
     rng = ctx.rng("oracle")
-    cases = gen_cases(rng, ctx.n(30, 150) * scale, ctx.n(3, 16) * scale, ctx.n(3, 8) * scale, ctx.n(3, 16) * scale, ctx.thorough)
+    cases = gen_cases(rng, ctx.n(24, 150) * scale, ctx.n(3, 16) * scale, ctx.n(3, 8) * scale, ctx.n(3, 16) * scale, ctx.thorough)
     out, dist = [], {}
     reps = ctx.n(1, 2)
     for c in cases:
